@@ -214,33 +214,39 @@ Definition tree_add_tree (h : heap) (new_tree : N) (can_add : bool) : heap * opt
     else (tree_node_destroy h1 (TN nb None None []), None)
   end.
 
-(* wbxml_tree_clb_wbxml_characters, SyncML <Data> holding WBXML: wbxml_tree_from_wbxml on the bytes (modelled as a parser
-   block, a tree block, one node: three requests, everything released on failure), then wbxml_tree_add_tree; ANY
-   failure of the embedded parse — out of memory included — goes to `text_node`: the bytes are added as text. *)
+(* wbxml_tree_clb_wbxml_characters, SyncML <Data> holding WBXML: wbxml_tree_from_wbxml_embedded on the bytes (modelled as a
+   parser block and a tree block, everything released on failure), then wbxml_tree_add_tree.  In the OLD code ANY failure
+   of the embedded parse — out of memory included — went to `text_node`: the bytes were added as text (finding P9). *)
 Inductive emb_result := EmbTree | EmbText | EmbError.
-Definition embedded_parse (h : heap) (parsable : bool) : heap * option N :=
+(* what the embedded parse reports: a tree, "this is not WBXML" (any error code but NOT_ENOUGH_MEMORY), or out of memory *)
+Inductive emb_parse := PTree (t : N) | PNotParsable | POutOfMemory.
+Definition embedded_parse (h : heap) (parsable : bool) : heap * emb_parse :=
   let '(h1, p) := alloc h in                         (* the parser *)
   match p with
-  | None => (h1, None)
+  | None => (h1, POutOfMemory)
   | Some p =>
     let '(h2, t) := alloc h1 in                      (* the tree *)
     match t with
-    | None => (free h2 (Some p), None)
+    | None => (free h2 (Some p), POutOfMemory)
     | Some t =>
-      if negb parsable then (free (free h2 (Some t)) (Some p), None)
-      else (free h2 (Some p), Some t)                (* the parser is destroyed, the tree is the result *)
+      if negb parsable then (free (free h2 (Some t)) (Some p), PNotParsable)
+      else (free h2 (Some p), PTree t)               (* the parser is destroyed, the tree is the result *)
     end
   end.
-Definition embedded_characters (h : heap) (parsable : bool) : heap * emb_result * option (list tnode) :=
+(* old = the code before the repair (props/C16/P9-fix.patch): `!= WBXML_OK` -> text_node, whatever the error.
+   repaired: NOT_ENOUGH_MEMORY is reported (tree_ctx->error), only the other errors mean "not parsable". *)
+Definition embedded_characters (old : bool) (h : heap) (parsable : bool) : heap * emb_result * option (list tnode) :=
   let '(h1, t) := embedded_parse h parsable in
+  let as_text (h1 : heap) :=
+    let '(h2, ch) := tree_add_text h1 None false in
+    match ch with Some ch => (h2, EmbText, Some ch) | None => (h2, EmbError, None) end in
   match t with
-  | Some t =>
+  | PTree t =>
     let '(h2, n) := tree_add_tree h1 t true in
     match n with
     | Some n => (h2, EmbTree, Some [n])
-    | None => (free h2 (Some t), EmbError, None)     (* tree_ctx->error = INTERNAL; wbxml_tree_destroy(tmp_tree) *)
+    | None => (free h2 (Some t), EmbError, None)     (* tree_ctx->error set; wbxml_tree_destroy(tmp_tree) *)
     end
-  | None =>                                          (* "Not parsable ? Just add it as a Text Node..." *)
-    let '(h2, ch) := tree_add_text h1 None false in
-    match ch with Some ch => (h2, EmbText, Some ch) | None => (h2, EmbError, None) end
+  | PNotParsable => as_text h1                       (* "Not parsable ? Just add it as a Text Node..." *)
+  | POutOfMemory => if old then as_text h1 else (h1, EmbError, None)
   end.
